@@ -245,13 +245,13 @@ class Alone:
         env = seams.RunEnv()
         env.fs.no_collision = srcclass != "path"  # reference: a text is a text, whatever the file system holds
         if srcclass == "path":
-            env.fs.files["/alone/doc.feature"] = text.encode("utf-8")
+            env.fs.files["/simfs/alone/doc.feature"] = text.encode("utf-8")
         with seams.swap_env(env):
             from gherkin.stream.id_generator import IdGenerator
             gens = [IdGenerator()]
             parser = make_parser({"b": "ast" if bkind in ("ast", "astd") else bkind, "g": 0}, gens)
             matcher = make_matcher(ms)
-            rec = run_parse(env.main_ctx, parser, matcher, text, first, "path" if srcclass == "path" else "scanner", "/alone/doc.feature")
+            rec = run_parse(env.main_ctx, parser, matcher, text, first, "path" if srcclass == "path" else "scanner", "/simfs/alone/doc.feature")
             rec["gens"] = gens
         return rec
 
@@ -263,12 +263,12 @@ class Alone:
             env = seams.RunEnv()
             env.fs.no_collision = srcclass != "path"
             if srcclass == "path":
-                env.fs.files["/alone/doc.feature"] = text.encode("utf-8")
+                env.fs.files["/simfs/alone/doc.feature"] = text.encode("utf-8")
             with seams.swap_env(env):
                 from gherkin.stream.id_generator import IdGenerator
                 gens = [IdGenerator()]
                 parser = make_parser({"b": "ast", "g": 0}, gens)
-                prec = run_parse(env.main_ctx, parser, make_matcher(ms), text, False, "path" if srcclass == "path" else "scanner", "/alone/doc.feature")
+                prec = run_parse(env.main_ctx, parser, make_matcher(ms), text, False, "path" if srcclass == "path" else "scanner", "/simfs/alone/doc.feature")
                 if prec["kind"] != "doc":
                     r = {"kind": "n/a", "parse": prec}
                 else:
@@ -381,6 +381,10 @@ class TaskState:
             if prec.get("kind") != "doc":
                 return {"op": "compile", "kind": "skipped", "norm": None, "raw": None, "snap": None, "draws": [], "reads": 0, "toks": 0, "dirty": []}
             return run_compile(self.ctx, self.compilers[op["c"]], prec, op.get("uri", "u.feature"), op.get("attach", "copy"))
+        if kind == "write":  # harness operation: the file system changes between two operations
+            fs = seams.cur_fs()
+            fs.files[op["path"]] = op["text"].encode("utf-8")
+            return {"op": "write", "kind": "write", "norm": [op["path"], dig(op["text"])], "raw": None, "snap": None, "draws": [], "reads": 0, "toks": 0, "dirty": []}
         if kind == "stream":
             from .stream_ops import run_stream
             return run_stream(self, op)
@@ -402,6 +406,7 @@ class Run:
         self.kernel = None
         self.stats = {}
         self.hooks = []  # extra oracle objects with after_op / at_end
+        self.gen_counts = {}  # generator identity -> ids it should have handed out so far
 
     def violation(self, oracle, ti, oi, path, exp=None, act=None, extra=None):
         v = {"oracle": oracle, "task": ti, "op": oi, "path": path, "cls": oracle + ":" + strip_index(path or ""),
@@ -448,10 +453,45 @@ class Run:
                         self.violation("C15-alone", ts.ti, oi, d, ref["norm"], rec["norm"])
             if "pure" in self.oracles and not rec.get("arg_intact", True):
                 self.violation("C15-pure", ts.ti, oi, rec.get("arg_diff") or "$", None, None)
+        if "offset" in self.oracles:
+            self.check_offset(ts, oi, op, rec)
         if "stable" in self.oracles:
             self.check_stable(ts, oi)
         for h in self.hooks:
             h.after_op(self, ts, oi, op, rec)
+
+    def gen_identity(self, ts, oi, op):
+        """Which generator the operation's instance was GIVEN (by the run specification)."""
+        kind = op["op"]
+        if kind == "parse":
+            ps = ts.spec["parsers"][op["p"]]
+            return ("g", ps["g"]) if ps["b"] == "ast" else ("pp", ts.ti, op["p"]) if ps["b"] == "astd" else ("none", ts.ti, oi)
+        if kind == "compile":
+            cs = ts.spec["compilers"][op["c"]]
+            return ("g", cs["g"]) if cs.get("g") is not None else ("pc", ts.ti, op["c"])
+        if kind == "stream":
+            return ("s", ts.ti, op["s"])
+        return ("op", ts.ti, oi)
+
+    def check_offset(self, ts, oi, op, rec):
+        """Shipped incrementing generator: the ids an operation draws are exactly the next ids of the
+        generator its instance was given - one offset per operation, no ids of anybody else in between
+        (tasks of C15 runs never share a generator, so any foreign draw is hidden shared state)."""
+        if self.cfg.get("flavour", "inc") != "inc":
+            return
+        ident = self.gen_identity(ts, oi, op)
+        c = self.gen_counts.get(ident, 0)
+        draws = rec.get("draws") or []
+        self.gen_counts[ident] = c + len(draws)
+        want = [str(c + k) for k in range(len(draws))]
+        if draws != want and not rec.get("offset_reported"):
+            k = next((i for i, (x, y) in enumerate(zip(draws, want)) if x != y), min(len(draws), len(want)))
+            self.violation(self.spec.get("prop", "C15") + "-offset", ts.ti, oi, "$draws[%d]" % k, want[k:k + 4], draws[k:k + 4])
+            self.gen_counts[ident] = None if not draws else self.gen_counts[ident]
+            try:
+                self.gen_counts[ident] = int(draws[-1]) + 1
+            except (ValueError, IndexError, TypeError):
+                self.gen_counts[ident] = c + len(draws)
 
     def check_stable(self, ts, upto):
         for j, r in enumerate(ts.records):
